@@ -21,7 +21,7 @@ var suitesByProp = map[string][]func(*runner, *rng){
 	"C16": {suiteDur, suiteFracFloat},
 	"C15": {suiteLin},
 	"C01": {suiteSrt},
-	"C02": {suiteVtt, suiteVttNeeds},
+	"C02": {suiteVtt, suiteVttNeeds, suiteVttKeyed},
 	"C04": {suiteSsa, suiteSsaModel},
 	"C17": {suiteSchedules, suiteStlIO},
 	"C19": {suiteDeterminism},
